@@ -11,6 +11,9 @@
    exitReason(), repeatRetries, ... are compared with the specification.  The families include transient filesystem
    faults: the k-th canConsume() listing of a still output-less producer directory raises OSError (the directory is
    moved away around the real os.listdir); a check that raised has seen nothing, so no launch may follow from it.
+   "mixed": one repeating and one plain producer with per-producer output (the REAL Job.producersHaveOutputSinceDate on
+   the real directories decides); "ofault": the listing of the repeating producer's directory fails for a whole attempt
+   during the output check -- the attempt must be aborted (monitor sleeps 30 s + 5 s), never charged to repeatRetries.
    The "plumbing" family drives the observer through the REAL ComponentState.stageIn() producer subscription (real
    ComponentState objects for the observer and its producers: two live producers, same-named producers in two stages
    with one already finished, both reference orders, only finished producers): notify_all_producers_finished() must be
@@ -34,12 +37,13 @@ from ..common import Check, MachineryError, SPEC
 from .. import tlc
 
 PID = "C13"
-ALL_MODES = ["repeatingProducer", "plainProducer", "earlierStage", "noCheck"]
+ALL_MODES = ["repeatingProducer", "plainProducer", "earlierStage", "noCheck", "mixedProducers"]
 KEY_OF_DEV = {
     "stale-suicide": "killdelay:expires-while-idle-after-an-execution",
     "stale-check": "race:last-output-and-notification-inside-output-check:no-retries-left",
 }
 KEY_OF_CLAUSE = {
+    "p4": "fault:attempt-with-failed-output-check-charged-to-repeatRetries",
     "p0": "plumbing:producers-finished-notification-before-every-live-producer-finished",
     "p1": "clause1:executed-before-consumable-output",
     "p2": "clause2:stopped-before-an-execution-that-began-after-the-last-output",
@@ -67,8 +71,8 @@ def constants(intervals=(7,), retries=(0, 1), die=(0,), modes=("repeatingProduce
                 _b(extkill), _b(prenotify), _b(window), _b(prerun), _set(deviations), _b(record)))
 
 
-INVARIANTS = ["TypeOK", "Consistent", "NotifiedOnlyWhenFinished", "NoExecutionBeforeOutput", "FinalOutputObserved", "BoundedAttempts", "StopsForAReason", "StopsInTime"]
-ACTIONS = ["Run", "Poll", "Begin", "Sample", "TaskEnd", "Decide", "LastAction", "Tick", "ProducerFinishes", "NewOutput",
+INVARIANTS = ["TypeOK", "Consistent", "FaultNeverCharged", "NotifiedOnlyWhenFinished", "NoExecutionBeforeOutput", "FinalOutputObserved", "BoundedAttempts", "StopsForAReason", "StopsInTime"]
+ACTIONS = ["Run", "Poll", "Begin", "Sample", "TaskEnd", "Decide", "LastAction", "Tick", "ProducerFinishes", "NewOutputFrom", "FaultRecover1", "FaultRecover2",
            "KillDelay", "ExternalKill"]
 WITNESSES = ["W_StopsAfterSuccess", "W_StopsOutOfRetries", "W_StopsByKillDelayIdle", "W_ForcedRun", "W_WindowNotify"]
 
@@ -92,7 +96,8 @@ def design_checks(chk, tier):
         c = constants(intervals=(3, 7, 12), retries=(0, 1, 2), die=(0, 4), modes=ALL_MODES, durations=(2, 6), notify_by=12, max_outputs=2,
                       extkill=True, max_faults=1, shapes=("direct", "two", "earlierOnly"))
     else:
-        c = constants(intervals=(3, 12), retries=(0, 2), die=(0, 4), modes=ALL_MODES, durations=(2, 6), notify_by=8, max_outputs=1,
+        # ("mixedProducers" is model-checked with the invariants in its emission run)
+        c = constants(intervals=(3, 12), retries=(0, 2), die=(0, 4), modes=ALL_MODES[:4], durations=(2, 6), notify_by=8, max_outputs=1,
                       extkill=True, max_faults=1, shapes=("direct", "two", "earlierOnly"))
     r = tlc.run_tlc("Repeating", _cfg("Repeating_design_%s.cfg" % tier, c + "SPECIFICATION Spec\n" + inv), coverage=True, deadlock=False,
                     timeout=1500)
@@ -149,6 +154,10 @@ def families(tier):
             ("forced", dict(intervals=(30,), retries=(3, 5), die=(0,), modes=("repeatingProducer",), durations=(3, 22), notify_by=6, window=False)),
             ("fsfault", dict(intervals=(3, 7), retries=(0, 2), die=(0, 9), modes=("plainProducer", "noCheck"), durations=(2,), notify_by=8,
                              max_outputs=1, max_faults=3, window=False)),
+            ("mixed", dict(intervals=(3, 7), retries=(0, 1, 2), die=(0,), modes=("mixedProducers",), durations=(2,), notify_by=10,
+                           max_outputs=2, window=False)),
+            ("ofault", dict(intervals=(7,), retries=(0, 1), die=(0, 9), modes=("repeatingProducer",), durations=(2,), notify_by=10,
+                            max_outputs=1, max_faults=2, window=False)),
             ("plumbing", dict(intervals=(7,), retries=(0, 1), die=(0, 4), shapes=("one", "two", "sameNameEarlierLast", "sameNameEarlierFirst",
                                                                                    "twoAndEarlier", "earlierOnly"),
                               durations=(2,), notify_by=8, max_outputs=1)),
@@ -164,14 +173,18 @@ def families(tier):
                         prenotify=False)),
         ("fsfault", dict(intervals=(3,), retries=(0, 1), die=(0,), modes=("plainProducer", "noCheck"), durations=(2,), outcomes=("ok",), notify_by=6,
                          max_outputs=1, max_faults=2, window=False)),
-        ("plumbing", dict(intervals=(7,), retries=(0, 1), die=(0,), shapes=("one", "two", "sameNameEarlierLast", "sameNameEarlierFirst", "earlierOnly"),
-                          durations=(2,), notify_by=5, max_outputs=1, window=False)),
+        ("plumbing", dict(intervals=(7,), retries=(0, 1), die=(0,), shapes=("two", "sameNameEarlierLast", "sameNameEarlierFirst", "earlierOnly"),
+                          durations=(2,), notify_by=4, max_outputs=1, window=False)),
+        ("mixed", dict(intervals=(3,), retries=(0,), die=(0,), modes=("mixedProducers",), durations=(2,), outcomes=("ok",), notify_by=6,
+                       max_outputs=2, window=False, prenotify=False)),
+        ("ofault", dict(intervals=(7,), retries=(0, 1), die=(0,), modes=("repeatingProducer",), durations=(2,), outcomes=("ok",), notify_by=7,
+                        max_outputs=1, max_faults=1, window=False)),
     ]
 
 
 def emit_behaviours(chk, tier):
     fams = families(tier)
-    cfgs = [_cfg("Repeating_emit_%s_%s.cfg" % (name, tier), constants(record=True, **kw) + "INIT Init\nNEXT Next\nINVARIANT EmitBehaviour\n")
+    cfgs = [_cfg("Repeating_emit_%s_%s.cfg" % (name, tier), constants(record=True, **kw) + "INIT Init\nNEXT Next\nINVARIANT EmitBehaviour\n" + "".join("INVARIANT %s\n" % i for i in INVARIANTS))
             for name, kw in fams]
     # one single-worker TLC process per family (emission order inside a family is deterministic), side by side
     with ThreadPoolExecutor(max_workers=4) as ex:
@@ -179,7 +192,7 @@ def emit_behaviours(chk, tier):
     cases = []
     for (name, kw), r in zip(fams, res):
         if not r["ok"]:
-            raise MachineryError("emission run %s failed:\n%s" % (name, r["out"][-2000:]))
+            raise MachineryError("emission run %s failed (%s):\n%s" % (name, r["violated"], r["out"][-2000:]))
         if len(r["cases"]) < 20:
             raise MachineryError("emission run %s produced only %d behaviours" % (name, len(r["cases"])))
         chk.add_tlc(r)
@@ -223,6 +236,9 @@ def random_cases(n, seed):
                     sched.append({"a": "output", "s": rnd.randrange(1, tn + 1, 2)})
                 else:
                     sched.append({"a": "output", "s": min(tn, 10 * rnd.randrange(1, 8))})      # aims at an output-check window
+        for e in sched:
+            if e["a"] == "output":
+                e["src"] = rnd.choice(["P", "R", "B", "B"]) if cfg["mode"] == "mixedProducers" and cfg["shape"] == "direct" else "-"
         if cfg["shape"] == "direct":
             sched.append({"a": "notify", "s": tn})
         else:
@@ -240,10 +256,14 @@ def random_cases(n, seed):
             # transient filesystem faults: the k-th canConsume() listing of the (still empty) producer directory raises OSError
             for _ in range(rnd.randint(1, 5)):
                 sched.append({"a": "check", "s": rnd.choice([1, 1, 0])})
+        if cfg["mode"] == "repeatingProducer" and cfg["shape"] == "direct" and rnd.random() < 0.5:
+            # ... during the k-th attempt that checks for new output the repeating producer's directory cannot be listed
+            for _ in range(rnd.randint(1, 12)):
+                sched.append({"a": "ocheck", "s": rnd.choice([1, 0, 0, 0])})
         for _ in range(40):
             sched.append({"a": "task", "s": rnd.randint(1, maxd)})
             sched.append({"a": "rc", "s": rnd.choice([0, 0, 1, 1, 2])})
-        horizon = max(tn // 2, 0) + stop_bound(cfg) + 12
+        horizon = max(tn // 2, 0) + stop_bound(cfg) + 12 + 35 * sum(e["s"] for e in sched if e["a"] == "ocheck")
         out.append({"cfg": cfg, "sched": sched, "horizon": horizon, "family": "random", "id": "r%d" % i})
     return out
 
@@ -381,9 +401,12 @@ def describe(item, res):
     flt = [e["s"] for e in item["sched"] if e["a"] == "check"]
     if any(flt):
         env = env + [{"a": "listing-faults", "s": flt}]
+    flt = [e["s"] for e in item["sched"] if e["a"] == "ocheck"]
+    if any(flt):
+        env = env + [{"a": "output-check-faults", "s": flt}]
     return "cfg %s env %s -> launches %s, final alive=%s reason=%s retries=%s t=%s" % (
         {k: item["cfg"][k] for k in ("R", "retries0", "die", "mode", "shape") if k in item["cfg"]},
-        [(e["a"], e["s"]) + ((e["p"],) if e["a"] == "pfinish" else ()) for e in env],
+        [(e["a"], e["s"]) + ((e["p"],) if e["a"] == "pfinish" else ()) + ((e["src"],) if e.get("src", "-") != "-" else ()) for e in env],
         [(l["t"], l["saw"]) for l in res["launches"]], res["final"]["alive"], res["final"]["reason"], res["final"]["retries"], res["final"]["now"])
 
 
@@ -440,7 +463,7 @@ def _run(chk, tier):
     to_trace = []
     nmis = 0
     for it, res in zip(replays, results[:len(replays)]):
-        chk.evaluated((it["cfg"], [(e["a"], e["s"], e.get("p")) for e in it["sched"]]))
+        chk.evaluated((it["cfg"], [(e["a"], e["s"], e.get("p"), e.get("src")) for e in it["sched"]]))
         diffs = compare_with_spec(it["spec"], res)
         ed = emission_diffs(res)
         if diffs:
@@ -482,7 +505,7 @@ def _run(chk, tier):
     chk.assumptions += [
         "task durations are whole seconds >= 1, a killed task dies within the second; environment events fall strictly between the monitor's instants or into the output-check window",
         "producer output that exists before run() (mtime <= the primed lastLaunched) is outside the claim (constant PreRunOutput = FALSE)",
-        "the task generator never raises; the optimizer and restart() (lastExecution) are not modelled; filesystem faults are modelled for canConsume()'s listing of an output-less producer directory (non-repeating producer / check-producer-output=false) only, not for producersHaveOutputSinceDate",
+        "the task generator never raises; the optimizer and restart() (lastExecution) are not modelled; filesystem faults: canConsume()'s listing of an output-less producer directory (non-repeating producer / check-producer-output=false) and the output check of a repeating producer for a whole attempt, at most MaxFaults (the monitor giving up after 5 consecutive faults is not modelled)",
         "stopping because the configured kill delay expired counts as a permitted stop for clause 2",
         "bounded termination is checked as StopBound = 2*(maxd + (retries0+2)*(poll-rounded interval + maxd) + interval), or kill delay + 2 s",
     ]
